@@ -846,6 +846,118 @@ theorem iaddDense_abs (l r : Dense R) (s : R) (hr : r.rows = l.rows) (hc : r.col
     rw [h1, if_pos (by rw [Nat.mul_comm l.rows l.cols]; exact lt_mul_of_lt hj hi)]
 end denseIaddThm
 
+/-! ### `matmul_csr_dense_dense` -/
+section csrDenseThm
+variable {R : Type} [CommRing R]
+
+theorem Dense.reorder_abs (d : Dense R) (i j : Nat) (hi : i < d.rows) (hj : j < d.cols) :
+    d.reorder.abs i j = d.abs i j := by
+  unfold Dense.reorder
+  exact Dense.ofFn_abs d.rows d.cols (!d.fortran) d.abs i j hi hj
+
+theorem rowDot_eq_sum (row : Row R) (vec : Nat → R) : rowDot row vec = (row.map fun p => p.2 * vec p.1).sum := by
+  unfold rowDot
+  rw [List.sum_eq_foldl]
+
+theorem rowDot_scaled (row : Row R) (s : R) (vec : Nat → R) :
+    rowDot (row.map fun q => (q.1, s * q.2)) vec = s * rowDot row vec := by
+  rw [rowDot_eq_sum, rowDot_eq_sum, List.map_map, ← List.sum_map_mul_left]
+  congr 1
+  apply List.map_congr_left
+  intro q _
+  simp only [Function.comp]
+  ring
+
+/-- the loops of `matmul_csr_dense_dense` accumulate `scale · A · B` into `out`, in either common memory order -/
+theorem csrDenseCore_abs (a : CSR R) (b out : Dense R) (s : R) (hord : b.fortran = out.fortran)
+    (hor : out.rows = a.rows) (hoc : out.cols = b.cols) (hbr : b.rows = a.cols)
+    (hcol : ∀ row ∈ a.r, ∀ p ∈ row, p.1 < a.cols) (i j : Nat) (hi : i < a.rows) (hj : j < b.cols) :
+    (csrDenseCore a b out s).abs i j = out.abs i j + s * ((List.range a.cols).map fun k => a.abs i k * b.abs k j).sum := by
+  have hrow : ∀ p ∈ a.r.getD i [], p.1 < a.cols := by
+    intro p hp
+    by_cases hlen : i < a.r.length
+    · have : a.r.getD i [] = a.r[i] := by simp [List.getD_eq_getElem?_getD, hlen]
+      rw [this] at hp
+      exact hcol _ (List.getElem_mem hlen) p hp
+    · have : a.r.getD i [] = [] := by simp [List.getD_eq_getElem?_getD, Nat.le_of_not_lt hlen]
+      rw [this] at hp
+      exact absurd hp List.not_mem_nil
+  unfold csrDenseCore
+  cases hb : b.fortran
+  · -- C order
+    have ho : out.fortran = false := by rw [← hord, hb]
+    simp only [Bool.false_eq_true, if_false, Dense.abs, ho, hoc]
+    rw [if_pos (lt_mul_of_lt hi hj), div_of_mul_add hj, mod_of_mul_add hj, rowDot_scaled, rowDot_eq_sum,
+      ← sum_rowAbs_mul (a.r.getD i []) a.cols (fun k => b.data (k * b.cols + j)) hrow]
+    simp only [CSR.abs, hb, Bool.false_eq_true, if_false]
+  · -- Fortran order
+    have ho : out.fortran = true := by rw [← hord, hb]
+    simp only [if_true, Dense.abs, ho, hor]
+    have h1 : i + j * a.rows = j * a.rows + i := Nat.add_comm _ _
+    rw [h1, if_pos (by rw [Nat.mul_comm a.rows b.cols]; exact lt_mul_of_lt hj hi), div_of_mul_add hi, mod_of_mul_add hi,
+      rowDot_eq_sum, ← sum_rowAbs_mul (a.r.getD i []) a.cols (fun k => b.data (j * b.rows + k)) hrow]
+    simp only [CSR.abs, hb, if_true]
+    congr 3
+    apply List.map_congr_left
+    intro k _
+    rw [Nat.add_comm (j * b.rows) k]
+
+/-- **`matmul_csr_dense_dense` computes `scale · A · B + out`** for a CSR left operand with its stored entries in any
+order (duplicates adding up) and every combination of memory orders of `right` and `out`, including the two branches
+that reorder an operand or compute in a reordered copy of `out` and copy back. -/
+theorem matmulCsrDense_abs (a : CSR R) (b out : Dense R) (s : R)
+    (hor : out.rows = a.rows) (hoc : out.cols = b.cols) (hbr : b.rows = a.cols)
+    (hcol : ∀ row ∈ a.r, ∀ p ∈ row, p.1 < a.cols) (i j : Nat) (hi : i < a.rows) (hj : j < b.cols) :
+    (matmulCsrDense a b out s).abs i j = out.abs i j + s * ((List.range a.cols).map fun k => a.abs i k * b.abs k j).sum := by
+  unfold matmulCsrDense
+  by_cases heq : b.fortran = out.fortran
+  · rw [if_pos (by simpa using heq)]
+    exact csrDenseCore_abs a b out s heq hor hoc hbr hcol i j hi hj
+  · rw [if_neg (by simpa using heq)]
+    cases hb : b.fortran
+    · -- right C-ordered, out Fortran-ordered: right is reordered
+      have ho : out.fortran = true := by
+        cases h : out.fortran
+        · exact absurd (hb.trans h.symm) heq
+        · rfl
+      simp only [Bool.false_eq_true, if_false]
+      have hbf : b.reorder.fortran = out.fortran := by simp [Dense.reorder, Dense.ofFn, hb, ho]
+      have hbr' : b.reorder.rows = a.cols := by simpa [Dense.reorder, Dense.ofFn] using hbr
+      have hbc' : b.reorder.cols = b.cols := by simp [Dense.reorder, Dense.ofFn]
+      rw [csrDenseCore_abs a b.reorder out s hbf hor (by rw [hbc']; exact hoc) hbr' hcol i j hi (by rw [hbc']; exact hj)]
+      congr 3
+      apply List.map_congr_left
+      intro k hk
+      rw [Dense.reorder_abs b k j (by rw [hbr]; exact List.mem_range.mp hk) hj]
+    · -- right Fortran-ordered, out C-ordered: accumulate in a reordered copy of out, reorder back, copy
+      have ho : out.fortran = false := by
+        cases h : out.fortran
+        · rfl
+        · exact absurd (hb.trans h.symm) heq
+      simp only [if_true]
+      have hX : ∀ (X : Dense R), X.rows = out.rows → X.cols = out.cols → X.reorder.fortran = false →
+          ({ out with data := fun p => if p < a.rows * b.cols then X.reorder.data p else out.data p } : Dense R).abs i j = X.abs i j := by
+        intro X hxr hxc hxf
+        simp only [Dense.abs, ho, Bool.false_eq_true, if_false]
+        rw [hoc, if_pos (lt_mul_of_lt hi hj)]
+        have := Dense.reorder_abs X i j (by rw [hxr, hor]; exact hi) (by rw [hxc, hoc]; exact hj)
+        simp only [Dense.abs, hxf, Bool.false_eq_true, if_false] at this
+        have hrc : X.reorder.cols = b.cols := by simp [Dense.reorder, Dense.ofFn, hxc, hoc]
+        rw [hrc] at this
+        exact this
+      have horr : out.reorder.rows = a.rows := by simpa [Dense.reorder, Dense.ofFn] using hor
+      have horc : out.reorder.cols = b.cols := by simpa [Dense.reorder, Dense.ofFn] using hoc
+      have horf : b.fortran = out.reorder.fortran := by simp [Dense.reorder, Dense.ofFn, hb, ho]
+      have hcore_rows : (csrDenseCore a b out.reorder s).rows = out.rows := by
+        unfold csrDenseCore; split <;> simp [Dense.reorder, Dense.ofFn]
+      have hcore_cols : (csrDenseCore a b out.reorder s).cols = out.cols := by
+        unfold csrDenseCore; split <;> simp [Dense.reorder, Dense.ofFn]
+      have hcore_f : (csrDenseCore a b out.reorder s).reorder.fortran = false := by
+        unfold csrDenseCore; split <;> simp [Dense.reorder, Dense.ofFn, ho]
+      rw [hX _ hcore_rows hcore_cols hcore_f, csrDenseCore_abs a b out.reorder s horf horr horc hbr hcol i j hi hj,
+        Dense.reorder_abs out i j (by rw [hor]; exact hi) (by rw [hoc]; exact hj)]
+end csrDenseThm
+
 /-- **a specialisation constructed by inserting conversions computes the same operation**: if the
 registered implementation refines `f` on the meanings and every converter preserves the meaning, so
 does the constructed one — for every requested combination of operand and output formats -/
